@@ -4,7 +4,8 @@ pid = sys.argv[1]
 rnd = int(sys.argv[2]) if len(sys.argv) > 2 else 1          # round 2: new changes, different from round 1
 wt = f'/tmp/mut/{pid}' + ('' if rnd == 1 else f'r{rnd}')
 work = '/tmp/mutwork' + ('' if rnd == 1 else str(rnd))
-prefix = 'm' if rnd == 1 else 'n'
+prefix = {1: 'm', 2: 'n'}.get(rnd, 'p')
+how_many = ('THREE', 3) if rnd < 3 else ('TWO', 2)
 earlier = ''
 if rnd > 1:
     import glob
@@ -24,9 +25,9 @@ Quantified over: {p['quantifier']['text']}
 Why the existing tests cannot settle it: {p['why_tests_cant']}
 Code it is anchored in: {', '.join(p['anchors']['files'])}
 
-YOUR TASK: produce THREE independent, realistic changes to the library source (under {wt}/src/biogeme), each of which BREAKS this property while the code still imports/compiles and the existing test suite still passes. Each change should look like a plausible slip or well-meant refactoring (an off-by-one, a swapped operand, sorted vs unsorted, > vs >=, a cache not invalidated, a wrong variable of a similar name, a special case handled "more efficiently", two sites that each look fine alone), and should need something SPECIFIC to manifest — an unusual input, a particular multi-step sequence of operations, a particular size/shape/ordering, an edge value, a crash or fault at a particular point — NOT something any ordinary use would expose at once. NEVER use `git stash` (the stash is shared by all worktrees of the repository and other people work in sibling worktrees): save a change with `git diff > file`, reset with `git checkout -- .`, restore with `git apply file`. Make the three changes different in mechanism and location (different functions/files where possible). Keep each change small (1-15 lines).{earlier}
+YOUR TASK: produce {how_many[0]} independent, realistic changes to the library source (under {wt}/src/biogeme), each of which BREAKS this property while the code still imports/compiles and the existing test suite still passes. Each change should look like a plausible slip or well-meant refactoring (an off-by-one, a swapped operand, sorted vs unsorted, > vs >=, a cache not invalidated, a wrong variable of a similar name, a special case handled "more efficiently", two sites that each look fine alone), and should need something SPECIFIC to manifest — an unusual input, a particular multi-step sequence of operations, a particular size/shape/ordering, an edge value, a crash or fault at a particular point — NOT something any ordinary use would expose at once. NEVER use `git stash` (the stash is shared by all worktrees of the repository and other people work in sibling worktrees): save a change with `git diff > file`, reset with `git checkout -- .`, restore with `git apply file`. Make the changes different in mechanism and location (different functions/files where possible). Keep each change small (1-15 lines).{earlier}
 
-For EACH change i in 1..3 deliver, under {work}/{pid}/{prefix}<i>/ :
+For EACH change i in 1..{how_many[1]} deliver, under {work}/{pid}/{prefix}<i>/ :
   * patch.diff — `git -C {wt} diff` of that change alone (apply each change on a clean tree: `git -C {wt} checkout -- .` between changes);
   * demo.py — a small standalone program that exits 0 and prints PASS on the UNCHANGED tree and exits 1 printing FAIL (with the observed vs expected values) on the changed tree; it must demonstrate a violation of the PROPERTY as stated (not merely a diff in some internal detail); run it both ways and record the outputs;
   * meta.json — {{"property": "{pid}", "title": "<one line>", "files": [...], "needs": "<what specific input/sequence/condition is needed for the violation to manifest>", "why_tests_pass": "<why the existing suite does not notice>", "demo_unchanged": "<output>", "demo_changed": "<output>", "tests_run": "<what you ran and the result>"}}.
